@@ -604,7 +604,6 @@ func (t *commTable) inventory() map[string]int {
 	return inv
 }
 
-
 // actorChanType: the named channel type has a method that is started as a goroutine.
 func (w *World) actorChanType(name string) bool {
 	if w.actorChans == nil {
